@@ -309,3 +309,55 @@ Proof.
   destruct (copy_all_users_spec _ _ _ _ B H) as (L & U & F).
   eapply copied_handles_iso; eauto.
 Qed.
+
+(* ---------- 8. the RESULT SLICE of Users() / Channels() ----------
+   It is a new object (it did not exist before the call, so nothing that was reachable
+   before can reach it), it holds exactly the copies, and isolation is kept with the slice
+   and its elements added to what the client holds. *)
+
+Lemma listing_iso {V} (val : heap -> nat -> option V) (tracked : amap nat) w K hF l :
+  Isolated w K -> length (w_heap w) <= length hF -> elementwise val tracked (w_heap w) hF (w_st w) l ->
+  Isolated (mkWorld (hF ++ [CPtrs (List.map Some l)]) (w_st w)) ((length hF :: l) ++ K).
+Proof.
+  intros Iso L (U & _ & _ & Fresh & _).
+  set (h' := hF ++ [CPtrs (List.map Some l)]).
+  assert (Lh : length h' = S (length hF)) by (unfold h'; rewrite app_length; simpl; lia).
+  apply fresh_handles_iso; [exact Iso|lia| |].
+  - intros x Lx. unfold h'. rewrite hget_app_old by lia. apply U. exact Lx.
+  - intros x Hx. apply in_creach in Hx. destruct Hx as (r & [<-|Hr] & Hx).
+    + apply reach_inv in Hx. destruct Hx as [->|(c & Hc & Hx)]; [lia|].
+      unfold h' in Hc. rewrite hget_app_new in Hc. injection Hc as <-. cbn [ptrs] in Hx.
+      apply in_flat_map in Hx. destruct Hx as (y & Hy & Hx). apply in_map_iff in Hy. destruct Hy as (o' & <- & Ho').
+      destruct Hx as [<-|[]]. pose proof (Fresh o' Ho' o' (reach_self _ _)). lia.
+    + assert (Lr : r < length hF) by (pose proof (Fresh r Hr r (reach_self _ _)); lia).
+      assert (E : reach h' r = reach hF r) by (apply reach_same_cell; unfold h'; apply hget_app_old; exact Lr).
+      rewrite E in Hx. pose proof (Fresh r Hr x Hx). lia.
+Qed.
+
+Theorem users_listing_fresh w K h' L l : Isolated w K -> users_listing_g w = Ok (h', L, l) ->
+  exists hF, users_g w = Ok (hF, l) /\ h' = hF ++ [CPtrs (List.map Some l)] /\ L = length hF /\
+             length (w_heap w) <= L /\ Isolated (mkWorld h' (w_st w)) ((L :: l) ++ K).
+Proof.
+  intros Iso H. unfold users_listing_g in H. bind_inv H r Hr. destruct r as [hF l0]. unfold halloc in H. simpl in H. injection H as <- <- <-.
+  pose proof (users_elementwise _ _ _ (iso_inv _ _ Iso) Hr) as E.
+  assert (Len : length (w_heap w) <= length hF).
+  { unfold users_g in Hr. bind_inv Hr r0 Hr0. destruct r0 as [hF0 l1]. simpl in Hr. injection Hr as <- <-.
+    assert (B : bounded (w_heap w) (creach (w_heap w) (List.map snd (hs_users (w_st w))))).
+    { intros x Hx. apply (iso_inv _ _ Iso). unfold live_objs, roots. rewrite flat_map_app. apply in_or_app. left. exact Hx. }
+    apply (copy_all_users_spec _ _ _ _ B Hr0). }
+  exists hF. split; [reflexivity|]. split; [reflexivity|]. split; [reflexivity|]. split; [exact Len|]. eapply listing_iso; eauto.
+Qed.
+
+Theorem channels_listing_fresh w K h' L l : Isolated w K -> channels_listing_g w = Ok (h', L, l) ->
+  exists hF, channels_g w = Ok (hF, l) /\ h' = hF ++ [CPtrs (List.map Some l)] /\ L = length hF /\
+             length (w_heap w) <= L /\ Isolated (mkWorld h' (w_st w)) ((L :: l) ++ K).
+Proof.
+  intros Iso H. unfold channels_listing_g in H. bind_inv H r Hr. destruct r as [hF l0]. unfold halloc in H. simpl in H. injection H as <- <- <-.
+  pose proof (channels_elementwise _ _ _ (iso_inv _ _ Iso) Hr) as E.
+  assert (Len : length (w_heap w) <= length hF).
+  { unfold channels_g in Hr. bind_inv Hr r0 Hr0. destruct r0 as [hF0 l1]. simpl in Hr. injection Hr as <- <-.
+    assert (B : bounded (w_heap w) (creach (w_heap w) (List.map snd (hs_channels (w_st w))))).
+    { intros x Hx. apply (iso_inv _ _ Iso). unfold live_objs, roots. rewrite flat_map_app. apply in_or_app. right. exact Hx. }
+    apply (copy_all_chans_spec _ _ _ _ B Hr0). }
+  exists hF. split; [reflexivity|]. split; [reflexivity|]. split; [reflexivity|]. split; [exact Len|]. eapply listing_iso; eauto.
+Qed.
